@@ -1,7 +1,7 @@
 (* C13 - Behaviour depends on the byte stream, not on how it is segmented.
    Property theorems only (proved in Recv/RecvProofs.v). *)
 From Coq Require Import NArith List Bool.
-From V9 Require Shape.ShapeLib Shape.PRecv.
+From V9 Require Shape.ShapeLib Shape.PRecv Shape.PViews Recv.Views.
 From V9 Require Import Lib.GoSem Lib.Bytes Gen.Consts Codec.Msg Codec.Unpack Recv.Recv Recv.RecvProofs.
 Import ListNotations.
 Local Open Scope N_scope.
@@ -76,3 +76,21 @@ Proof. vm_compute. repeat split. Qed.
 Theorem C13_source_rereads_the_dialect_for_every_message : ShapeLib.recv_rereads_dialect = true.
 Proof. exact PRecv.recv_rereads_dialect_ok. Qed.
 Print Assumptions C13_source_rereads_the_dialect_for_every_message.
+
+
+(* ---- the receive buffer as memory (Recv/Views.v): Unpack does not copy, what is handed on keeps slices into
+   the receive buffer. For any reads, deliveries and reallocations no byte that arrives later overwrites a
+   delivered message; compacting inside the buffer (seeded changes C09c, C13a, C14a) is refuted; and in the
+   CURRENT source every copy in a receive loop goes into a freshly allocated buffer ---- *)
+Theorem C13_delivered_messages_never_overwritten : forall ls c s,
+  Views.run false (Views.init c) ls = Some s -> Views.clobbered s = false.
+Proof. exact Views.delivered_messages_never_overwritten. Qed.
+Print Assumptions C13_delivered_messages_never_overwritten.
+
+Theorem C13_compaction_refuted : exists ls s, Views.run true (Views.init 64) ls = Some s /\ Views.clobbered s = true.
+Proof. exact Views.compaction_refuted. Qed.
+Print Assumptions C13_compaction_refuted.
+
+Theorem C13_source_never_compacts_a_receive_buffer : ShapeLib.recv_never_compacts = true.
+Proof. exact PViews.recv_never_compacts_ok. Qed.
+Print Assumptions C13_source_never_compacts_a_receive_buffer.
